@@ -7,9 +7,15 @@ from astropy.io import fits
 from vlib import sigfile
 
 
-def write_psrfits(path, raw, *, nbits, pol_type, freqs, tbin, scl, offs, wts, zero_off, imjd=58000, smjd=1234, offs_s=0.25, nstot=None, chan_bw=None):
+def write_psrfits(path, raw, *, nbits, pol_type, freqs, tbin, scl, offs, wts, zero_off, imjd=58000, smjd=1234, offs_s=0.25, nstot=None, chan_bw=None, cell_pad=0):
     """raw: (nsub, nsblk, npol, nchan) integer samples (< 2**nbits); scl/offs: (nsub, npol, nchan); wts: (nsub, nchan); freqs: (nchan,) MHz."""
     nsub, nsblk, npol, nchan = raw.shape
+    # cell_pad=k: the per-channel table cells keep the width of a band of nchan+k channels (a sub-band file cut out of a wider observation
+    # by a tool that left the column formats alone): the file's own values lead, filler follows.  Readers use the leading NCHAN (NPOL*NCHAN) entries.
+    kp = int(cell_pad)
+    def _padded(a, fill):          # a: (nsub, w) -> (nsub, w + extra) with the file's values first
+        extra = kp if a.shape[1] == nchan else kp * npol
+        return np.concatenate([a, np.full((nsub, extra), fill, dtype=a.dtype)], axis=1) if kp else a
     pri = fits.PrimaryHDU()
     h = pri.header
     for k, v in (("HDRVER", "6.1"), ("FITSTYPE", "PSRFITS"), ("OBSERVER", "verif"), ("PROJID", "P000"), ("TELESCOP", "Parkes"),
@@ -17,7 +23,7 @@ def write_psrfits(path, raw, *, nbits, pol_type, freqs, tbin, scl, offs, wts, ze
                  ("FD_POLN", "LIN"), ("FD_HAND", -1), ("FD_SANG", 0.0), ("FD_XYPH", 0.0), ("BACKEND", "Medusa"), ("BECONFIG", "Medusa"),
                  ("BE_PHASE", 1), ("BE_DCC", 1), ("BE_DELAY", 0.0), ("TCYCLE", 0.0), ("OBS_MODE", "SEARCH"), ("DATE-OBS", "2017-09-04T00:20:34"),
                  ("OBSFREQ", float(np.mean(freqs))), ("OBSBW", float(abs(freqs[-1] - freqs[0]) + abs(freqs[1] - freqs[0]) if nchan > 1 else 1.0)),
-                 ("OBSNCHAN", nchan), ("CHAN_DM", 0.0), ("SRC_NAME", "J0437-4715"), ("COORD_MD", "J2000"), ("EQUINOX", 2000.0),
+                 ("OBSNCHAN", nchan + kp), ("CHAN_DM", 0.0), ("SRC_NAME", "J0437-4715"), ("COORD_MD", "J2000"), ("EQUINOX", 2000.0),
                  ("RA", "04:37:15.8"), ("DEC", "-47:15:09.1"), ("FD_MODE", "FA"), ("FA_REQ", 0.0),
                  ("STT_IMJD", imjd), ("STT_SMJD", smjd), ("STT_OFFS", offs_s)):
         h[k] = v
@@ -33,10 +39,10 @@ def write_psrfits(path, raw, *, nbits, pol_type, freqs, tbin, scl, offs, wts, ze
     cols = [
         fits.Column(name="TSUBINT", format="1D", unit="s", array=np.full(nsub, nsblk * tbin)),
         fits.Column(name="OFFS_SUB", format="1D", unit="s", array=(np.arange(nsub) + 0.5) * nsblk * tbin),
-        fits.Column(name="DAT_FREQ", format=f"{nchan}D", unit="MHz", array=np.tile(freqs, (nsub, 1))),
-        fits.Column(name="DAT_WTS", format=f"{nchan}E", array=wts.astype(np.float32)),
-        fits.Column(name="DAT_OFFS", format=f"{nchan * npol}E", array=offs.reshape(nsub, -1).astype(np.float32)),
-        fits.Column(name="DAT_SCL", format=f"{nchan * npol}E", array=scl.reshape(nsub, -1).astype(np.float32)),
+        fits.Column(name="DAT_FREQ", format=f"{nchan + kp}D", unit="MHz", array=_padded(np.tile(np.asarray(freqs, dtype=np.float64), (nsub, 1)), 0.0)),
+        fits.Column(name="DAT_WTS", format=f"{nchan + kp}E", array=_padded(wts.astype(np.float32), 0.0)),
+        fits.Column(name="DAT_OFFS", format=f"{(nchan + kp) * npol}E", array=_padded(offs.reshape(nsub, -1).astype(np.float32), -777.0)),
+        fits.Column(name="DAT_SCL", format=f"{(nchan + kp) * npol}E", array=_padded(scl.reshape(nsub, -1).astype(np.float32), 1000.0)),
         fits.Column(name="DATA", format=f"{nb}B", dim=tdim, array=data_bytes.reshape((nsub,) + tuple(int(v) for v in tdim.strip("()").split(","))[::-1])),
     ]
     tab = fits.BinTableHDU.from_columns(cols, name="SUBINT")
